@@ -23,3 +23,8 @@ CASES = [
     dict(id='c18-eq-demorgan', prop='C18', file=A, expect=None,
          old="          && (printHidden || !mpArgObj->isHidden())", new="          && !(!printHidden && mpArgObj->isHidden())"),
 ]
+
+CASES += [
+    dict(id='c18-subgroup-private-settings', prop='C18', file='src/library/prog_args/handler.cpp', expect='R4',
+         old="   mpUsageParams( main_ah.mpUsageParams),", new="   mpUsageParams( std::make_shared< detail::UsageParams>( *main_ah.mpUsageParams)),"),
+]
